@@ -286,12 +286,12 @@ pub fn run(tier: Tier, seed: u64) -> Report {
     if rep.failed() {
         return rep;
     }
-    let r = engine::explore("C12", "point", seed, tier.pick(60_000, 1_500_000), point, check_point);
+    let r = engine::explore("C12", "point", seed, tier.pick(200_000, 1_500_000), point, check_point);
     rep.absorb("threshold-function", r);
     if rep.failed() {
         return rep;
     }
-    let r = engine::explore("C12", "pair", seed, tier.pick(20_000, 500_000), pair, check_pair);
+    let r = engine::explore("C12", "pair", seed, tier.pick(60_000, 500_000), pair, check_pair);
     rep.absorb("monotonicity", r);
     if rep.failed() {
         return rep;
@@ -302,7 +302,7 @@ pub fn run(tier: Tier, seed: u64) -> Report {
     p.av_latest_pct = 92;
     p.max_clients = 2;
     p.small_cfg = true;
-    let r = engine::explore("C12", "history", seed, tier.pick(3000, 80_000), || hcase(&p, 25), check_hist);
+    let r = engine::explore("C12", "history", seed, tier.pick(9000, 80_000), || hcase(&p, 25), check_hist);
     rep.absorb("counters-from-histories", r);
     rep
 }
